@@ -90,6 +90,28 @@ func c16TypeTables(c *Ctx) {
 					if st, ok := r2.(*ssa.Store); ok {
 						if n, isC := ConstInt(st.Val); isC {
 							k = n
+						} else {
+							// the tag was selected into a variable by the type switch and is written once afterwards:
+							// each constant reaches the write on the edge of its own arm
+							v := st.Val
+							if cv, isCv := v.(*ssa.Convert); isCv {
+								v = cv.X
+							}
+							for _, l := range phiLeaves(v) {
+								kk, isK := ConstInt(l.v)
+								if !isK || l.pred == nil {
+									continue
+								}
+								for _, dc := range condsOnLeaf(l, call) {
+									if ex, ok := dc.V.(*ssa.Extract); ok && ex.Index == 1 && dc.Pol {
+										if ta, ok := ex.Tuple.(*ssa.TypeAssert); ok {
+											if n := NamedOf(ta.AssertedType); n != nil {
+												t2s[n.Obj().Name()] = kk
+											}
+										}
+									}
+								}
+							}
 						}
 					}
 				}
